@@ -25,7 +25,9 @@ RULE = (
     "omitted, variable default, plus omitted-without-default, literal null, explicit null / absent variables and run-time null into a "
     "non-null argument; each at three positions: field argument, argument of a query-side FIELD directive (seen in on_field_execution) "
     "and argument of a schema-side directive. Oracle = reference CoerceArgumentValues per way + metamorphic equality (identical "
-    "dictionaries incl. key presence and leaf python types); failing ways null only their own field with one located error. "
+    "dictionaries incl. key presence and leaf python types); failing ways null only their own field with one located error; three ways "
+    "per pair are also sent as the root field of a subscription, where the source generator and the per-event resolver must both "
+    "receive that dictionary. SDL split and post-request in-place modification of delivered dictionaries as in C04. "
     "Distinct = SHA-1 of (type, value, ways); non-trivial = delivered by >= 2 different ways and the type is not a bare built-in scalar."
 )
 ASSUMPTIONS = c04.ASSUMPTIONS + ["SDL-side default values use no block strings (tartiflette's SDL parser keeps block strings raw; see DESIGN)"]
